@@ -21,6 +21,12 @@ M32 = 0xffffffff
 # e161ae8, a8b271d, a22623c); the sixth - iwrb_back on a wrapped ring - is the KNOWN FINDING C18-rb-back-wrapped: the scripts of
 # the family with this origin are judged by the bounded-deque reference and their verdict carries the origin in the replay object
 RB_BACK_ORIGIN = "rb-back-wrapped"
+# finding cont-pool-alloc-size-wrap (round 7): iwpool_alloc(siz) for siz in (SIZE_MAX - 7, SIZE_MAX] rounds the size up to 0 and returns a
+# pointer with no byte reserved.  Until fixes/cont-pool-alloc-size-wrap.diff is committed the default run tolerates that answer (and the
+# driver models the unguarded code); VERIF_C18_JUDGE_POOL_WRAP=1 judges it, models the guard, and adds the calloc / strndup calls
+# that crash on the unguarded code
+JUDGE_POOL_WRAP = os.environ.get("VERIF_C18_JUDGE_POOL_WRAP") == "1"
+SIZE_MAX = (1 << 64) - 1
 def _rb_hdr():
     # sizeof(struct iwrp) of the tree under test (a layout fact from the probe, T1); 32 on the 64-bit build: pos, len, usize, buf
     try:
@@ -1286,6 +1292,17 @@ def directed_po(rng):
                           "po strdup " + hx(b"abcdefg"), "po strdup " + hx(b"abcdefgh"), "po printf %s 7" % hx(b"xy"),
                           "po alloc %d" % (2 * asz), "po alloc 0", "po destroy"]
                 ss.append({"c": "po", "tag": "dir-po-%d-%d%+d" % (siz, rest, d), "lines": lines})
+    # size_t requests near SIZE_MAX: below / at / above the point where IW_ROUNDUP(siz, 8) wraps, on a fresh unit, after an allocation, on
+    # an empty pool; the allocation that follows must not get the address handed out for the huge request
+    for first in ("po new 64", "po new 8", "po newempty"):
+        lines = [first, "po alloc 8"]
+        for n in (SIZE_MAX - 3, SIZE_MAX, SIZE_MAX - 6, SIZE_MAX - 7, SIZE_MAX - 8, SIZE_MAX - 15, 1 << 63, (1 << 63) + 5):
+            lines += ["po allocbig %d" % n, "po alloc 16"]
+        if JUDGE_POOL_WRAP:
+            for n in (SIZE_MAX - 3, SIZE_MAX, SIZE_MAX - 7, 1 << 63):
+                lines += ["po callocbig %d" % n, "po strndupbig %d" % n, "po strndupbig %d" % (n - 1), "po alloc 8"]
+        lines += ["po destroy"]
+        ss.append({"c": "po", "tag": "dir-po-sizewrap-" + first.split()[1] + first.split()[-1], "lines": lines})
     # iwpool_split_string: every shape of the token rule (separator first / last / doubled, blank tokens, a last token of blanks
     # only, one character, nothing) with and without trimming, on a pool whose unit ends inside the token allocations
     hays = [b"", b",", b"a", b" ", b"a,", b",a", b"a,b", b"a,,b", b",,", b" a , b ", b"a, ,b", b" , ", b"  ", b"a,b,", b"a,b, ", b"\t\n a\r,\x0b\x0cb ",
@@ -2031,6 +2048,13 @@ def oracle_po(lines, outs):
                     break
             if n:
                 regions.append((u, off, n))
+        elif op in ("allocbig", "callocbig", "strndupbig"):
+            # no pool can satisfy a request above PTRDIFF_MAX: the reference answer is NULL
+            n = int(t[2])
+            if n > (1 << 63) - 1 and r.get("p") != "0":
+                wraps = n > SIZE_MAX - 7 or (op == "strndupbig" and n + 1 > SIZE_MAX - 7)
+                if JUDGE_POOL_WRAP or not wraps:
+                    bad.append((i, "%s(%d) returned a pointer (%s): no region of that size exists, the reference answer is NULL" % (op, n, o[:100])))
         elif op == "strdup":
             if r.get("rc") != "0" or r.get("v") != t[2] or r.get("in") != "1":
                 bad.append((i, "strndup: %s, reference %s" % (o[:160], t[2])))
